@@ -225,6 +225,9 @@ async def make_response(status, headers, payload, environ):
             await environ['asgi.send']({'type': 'websocket.accept',
                                         'headers': headers})
         else:
+            if any(h[0].lower() == b'content-encoding' for h in headers):
+                # a compressed body cannot be used as a close reason
+                payload = None
             if payload:
                 reason = payload.decode('utf-8') \
                     if isinstance(payload, bytes) else str(payload)
